@@ -1,4 +1,5 @@
 import Mimium.Proofs.ModResOrder
+import Mimium.Proofs.ModResReexport
 /-!
 # C17 — Module privacy and name resolution
 
@@ -13,16 +14,28 @@ module path `cur` and an arbitrary stack `locals` of lexical scopes, over every 
 over **every reference form** `Ref` (plain identifier, qualified path with ≥ 2 segments; the parser lowers a
 one-segment path to a plain identifier, `lower.rs`).
 
-What is proved.
-* `C17_no_private_route_partial`: in a tree **without re-exports** (`pub use`) and without duplicate definitions, a
-  reference that resolution accepts (no `PrivateMemberAccess`) never names a private member of a module that
-  does not enclose the use site.
-* The unrestricted statement is **false of the code** (finding F12): `C17_no_private_route_refuted_*` are
-  machine-checked witnesses (re-export of a private member; a module re-exporting its own private member;
-  the plain identifier that the re-export registers as a global alias); `C17_no_private_route_false` is the negated universal statement.
-* `C17_no_private_route_vismap`: for *all* trees, what the resolver enforces is exactly privacy w.r.t. its
-  visibility map, at the name it checks — which localises the defect: `pub use` writes `true` into that map
-  without looking at the target, and `convert_qualified_var` checks the name *before* following the alias chain.
+What is proved (state of /repo after c6822e4 + 3b64798, which repaired finding F12 — a `pub use` published a private
+member).
+* `C17_no_private_route`: in a tree **without duplicate function declarations** in which **no `pub use` exports a name
+  that is also declared as a function** (`reexportsFresh`, syntactic) — any number of re-exports of anything otherwise —,
+  a reference that resolution accepts (no `PrivateMemberAccess`) never names a private member of a module that does not
+  enclose the use site.  Layers: `C17_no_private_route_vis_faithful` (any tree whose visibility map agrees with the
+  declarations, `visFaithful`, decidable per tree; the hypothesis `reexportsPublic` it needed before 3b64798 is gone),
+  `C17_vis_faithful_of_fresh` (the syntactic condition implies `visFaithful`: the map can be unfaithful only through a
+  duplicate declaration or a re-export of a declared name), `C17_no_private_route_consistent` (sharpest: private functions
+  only), `C17_no_private_route_partial` (no re-exports at all; the old theorem, now a corollary).
+* `C17_reexport_of_private_rejected`, `_self_rejected`, `_ident_rejected`, `_before_decl_rejected`: the three witnesses of
+  the old leak and the order-dependent case (re-export standing before the private function; closed by 3b64798 only) are
+  rejected; `C17_no_private_route_class_boundary`: they and fixture `module_pub_use.mmm` lie in the `visFaithful` class.
+* The unrestricted statement is **still false of the code** (finding F12-cycle):
+  `C17_no_private_route_refuted_reexport_cycle` is a machine-checked witness — two re-exports naming each other, the
+  second one exporting the name of the private function itself —, `C17_no_private_route_false` the negated universal
+  statement.  The witness violates `reexportsFresh` (and has no duplicate declaration), so the hypothesis of
+  `C17_no_private_route` cannot simply be dropped.
+* `C17_no_private_route_vismap` / `_vismap_target`: for *all* trees, what the resolver enforces is exactly privacy w.r.t.
+  its visibility map — at the name a path denotes and, for every `ModuleInfo` the flattening can build, at the name it
+  returns (invariant: a re-exported name is entered in the alias map and the visibility map together) —, which localises
+  the remaining defect: `register_alias` *overwrites* the entry of a declared function.
 * `C17_resolves_to_denoted_*`: lookup order (absolute, then relative to the current module; innermost enclosing
   module first for plain identifiers), the flat mangled name space is the tree's path name space, uniqueness.
 * `C17_local_shadows_import*`: a lexically bound name is never rewritten, whatever is imported.
@@ -35,7 +48,7 @@ What is proved.
   identifiers), `…_any_item` / `…_member` (functions and lets in any module, across items unrelated to the item's map
   key): same resolved body, same diagnostics, wherever the item stands.  The walk of the pinned tree before /repo
   8a25d9f and the walk of seeded change C17c are machine-checked counterexamples (`C17_item_order_relevant_*`).
-  `C17_site_context_is_enclosing_module_*` + `C17_no_private_route_program`: in programs without re-exports, duplicate
+  `C17_site_context_is_enclosing_module_*` + `C17_no_private_route_program`: in programs without re-exports of declared names, duplicate
   functions and let-name clashes (`letNamesFresh`), no accepted reference occurrence inside any item names a private
   member of a module that does not enclose the item.  `C17_let_context_by_plain_name_refuted` (finding F12-letctx) and
   `C17_module_let_is_global*`, `C17_let_visibility_ignored` (finding F12-letglobal) say what the code does with
@@ -46,25 +59,10 @@ after their statement) and evaluation — both are only exercised by the corresp
 -/
 namespace Mimium.ModRes
 
-/-- **no private route**, for every tree without re-exports and without duplicate definitions, every position,
-every reference form. -/
-theorem C17_no_private_route_partial (evs : List Ev) (hre : noPubUse evs = true)
-    (hnd : ((fnDecls evs).map (·.1)).Nodup) : NoPrivateRoute evs := by
-  intro known cur locals r sym hwf hres ⟨hdecl, hlen⟩
-  have hv := vis_of_decl evs hre hnd hdecl
-  cases r with
-  | ident x => exact convertVar_sound ⟨lowerInfo evs, known, cur, locals⟩ x sym hres hv hlen
-  | path segs =>
-    have h2 : 2 ≤ segs.length := Ref.wf_path hwf
-    obtain ⟨hs, hp⟩ := convertQVar_sound ⟨lowerInfo evs, known, cur, locals⟩ segs sym h2 hres
-    have hr2 : 2 ≤ (resolveQualifiedPath segs segs cur known).1.length := by
-      have := resolveQualifiedPath_length segs cur known; omega
-    rw [aliasChain_id_of_plain (lowerInfo_noPubUse evs hre).2 hr2] at hs
-    subst hs
-    exact hp hv
-
-/-- For **all** trees: what resolution enforces is privacy with respect to its own visibility map, at the name it
-checks.  For identifiers that is the returned name; for paths it is the name *before* the alias chain is followed. -/
+/-- For **all** trees and every `ModuleInfo`: what resolution enforces is privacy with respect to its own visibility
+map.  For identifiers, at the returned name.  For paths, at the name the path denotes *before* the alias chain is
+followed and — since /repo 3b64798 — also at the returned name, whenever the chain moved and the denoted name has an
+entry in the map. -/
 theorem C17_no_private_route_vismap (info : Info) (known : Sym → Bool) (cur : List Name)
     (locals : List (List Sym)) (r : Ref) (sym : Sym) (hwf : r.wf = true)
     (hres : resolveRef ⟨info, known, cur, locals⟩ r = (sym, [])) :
@@ -72,76 +70,139 @@ theorem C17_no_private_route_vismap (info : Info) (known : Sym → Bool) (cur : 
     | .ident _ => get? info.vis sym = some false → 2 ≤ sym.length → sym.dropLast <+: cur
     | .path segs =>
       let checked := (resolveQualifiedPath segs segs cur known).1
-      sym = aliasChain info.alias checked ∧ (get? info.vis checked = some false → checked.dropLast <+: cur) := by
+      sym = aliasChain info.alias checked ∧ (get? info.vis checked = some false → checked.dropLast <+: cur) ∧
+      (sym ≠ checked → (get? info.vis checked).isSome → get? info.vis sym = some false → 2 ≤ sym.length →
+        sym.dropLast <+: cur) := by
   cases r with
   | ident x => exact fun hv hl => convertVar_sound ⟨info, known, cur, locals⟩ x sym hres hv hl
   | path segs =>
     exact convertQVar_sound ⟨info, known, cur, locals⟩ segs sym (Ref.wf_path hwf) hres
 
-/-! ### the unrestricted statement is false of the code (finding F12)
+/-- … and for the `ModuleInfo` of a walk the proviso "the denoted name has an entry" is always met when the chain moved
+(a re-exported name is entered in the alias map and in the visibility map together, nothing removes entries): the
+**returned** name is checked, for both reference forms, in every tree. -/
+theorem C17_no_private_route_vismap_target (evs : List Ev) (known : Sym → Bool) (cur : List Name)
+    (locals : List (List Sym)) (r : Ref) (sym : Sym) (hwf : r.wf = true)
+    (hres : resolveRef ⟨lowerInfo evs, known, cur, locals⟩ r = (sym, []))
+    (hv : get? (lowerInfo evs).vis sym = some false) (hl : 2 ≤ sym.length) : sym.dropLast <+: cur := by
+  cases r with
+  | ident x => exact convertVar_sound ⟨lowerInfo evs, known, cur, locals⟩ x sym hres hv hl
+  | path segs =>
+    exact convertQVar_sound_target ⟨lowerInfo evs, known, cur, locals⟩ (lowerInfo_aliasKeysVis evs) segs sym
+      (Ref.wf_path hwf) hres hv hl
 
-Names: `1 = a`, `2 = secret`, `3 = b`, `0 = dsp`. -/
+/-- **no private route**, for every tree whose visibility map is faithful to the declarations (`visFaithful`, a `Bool`
+computed per tree) — with any number of re-exports, whatever they lead to.  (Before /repo 3b64798 this needed the second
+hypothesis `reexportsPublic`: no re-exported name leads to something marked private.) -/
+theorem C17_no_private_route_vis_faithful (evs : List Ev) (h : visFaithful evs = true) : NoPrivateRoute evs := by
+  apply noPrivateRoute_of_private_faithful
+  intro sym hpriv
+  have := List.all_eq_true.mp h _ hpriv.1
+  simpa using this
 
-/-- F12: from the top level, `b::secret` is accepted and resolves to the private `a$secret`. -/
-theorem C17_no_private_route_refuted_reexport :
-    resolveRef ⟨lowerInfo (events f12), knownOf (events f12), [], []⟩ (.path [3, 2]) = ([1, 2], []) ∧
-    ([1, 2], false) ∈ fnDecls (events f12) ∧ ¬ ([1, 2] : Sym).dropLast <+: [] ∧
-    noPubUse (events f12) = false ∧ ((fnDecls (events f12)).map (·.1)).Nodup := by
+/-- **no private route**, sharpest syntactic form: every tree in which no private function shares its mangled name with
+a `pub` function and no `pub use` exports the name of a private function — any number of re-exports otherwise,
+duplicate declarations of equal visibility allowed. -/
+theorem C17_no_private_route_consistent (evs : List Ev)
+    (hc : ∀ d ∈ fnDecls evs, d.2 = false → (d.1, true) ∉ fnDecls evs)
+    (hx : ∀ d ∈ fnDecls evs, d.2 = false → d.1 ∉ exportedNames evs) : NoPrivateRoute evs := by
+  apply noPrivateRoute_of_private_faithful
+  intro sym hpriv
+  exact vis_private_of_consistent evs sym hpriv.1 (hc _ hpriv.1 rfl) (hx _ hpriv.1 rfl)
+
+/-- the visibility map can be unfaithful only if (a) two declarations share a mangled name or (b) a `pub use` exports
+a name that is also the name of a declared function: otherwise it *is* the declarations. -/
+theorem C17_vis_faithful_of_fresh (evs : List Ev) (hnd : ((fnDecls evs).map (·.1)).Nodup)
+    (hfr : reexportsFresh evs = true) : visFaithful evs = true :=
+  visFaithful_of_fresh evs hnd hfr
+
+/-- **no private route**, for every tree without duplicate function declarations in which no `pub use` exports a name
+that is also declared as a function (`reexportsFresh`, a syntactic `Bool`), every position, every reference form:
+a reference that resolution accepts never names a private member of a module that does not enclose the use site. -/
+theorem C17_no_private_route (evs : List Ev) (hnd : ((fnDecls evs).map (·.1)).Nodup)
+    (hfr : reexportsFresh evs = true) : NoPrivateRoute evs :=
+  C17_no_private_route_vis_faithful evs (visFaithful_of_fresh evs hnd hfr)
+
+/-- the special case without any re-export (the theorem this file had before the resolver was repaired) -/
+theorem C17_no_private_route_partial (evs : List Ev) (hre : noPubUse evs = true)
+    (hnd : ((fnDecls evs).map (·.1)).Nodup) : NoPrivateRoute evs :=
+  C17_no_private_route evs hnd (reexportsFresh_of_noPubUse evs hre)
+
+/-! ### the re-exports of finding F12 are rejected now (/repo c6822e4 + 3b64798)
+
+Names: `1 = a`, `2 = secret`, `3 = b`, `5 = x`, `0 = dsp`.  Each statement: what the reference resolves to and the
+`PrivateMemberAccess` it draws, then the diagnostics of the whole program. -/
+
+/-- `mod a { fn secret(){7.0} }  mod b { pub use a::secret }`: from the top level `b::secret` is rejected (the exported
+name `b$secret` carries the visibility of its target) -/
+theorem C17_reexport_of_private_rejected :
+    resolveRef ⟨lowerInfo (events f12), knownOf (events f12), [], []⟩ (.path [3, 2]) = ([1, 2], [⟨[3], some 2⟩]) ∧
+    (convertProgram (events f12) .unit).2 = [⟨[3], some 2⟩] ∧
+    get? (lowerInfo (events f12)).vis [3, 2] = some false := by
   decide +kernel
 
-theorem C17_no_private_route_refuted_self_reexport :
-    resolveRef ⟨lowerInfo (events f12self), knownOf (events f12self), [], []⟩ (.path [1, 2]) = ([1, 2], []) ∧
-    ([1, 2], false) ∈ fnDecls (events f12self) ∧ ¬ ([1, 2] : Sym).dropLast <+: [] := by
+/-- `mod a { fn secret(){7.0}  pub use a::secret }`: a module cannot publish its own private member -/
+theorem C17_reexport_self_rejected :
+    resolveRef ⟨lowerInfo (events f12self), knownOf (events f12self), [], []⟩ (.path [1, 2])
+      = ([1, 2], [⟨[1], some 2⟩]) ∧
+    (convertProgram (events f12self) .unit).2 = [⟨[1], some 2⟩] := by
   decide +kernel
 
-theorem C17_no_private_route_refuted_ident :
-    resolveRef ⟨lowerInfo (events f12wild), knownOf (events f12wild), [3], []⟩ (.ident 2) = ([1, 2], []) ∧
-    ([1, 2], false) ∈ fnDecls (events f12wild) ∧ ¬ ([1, 2] : Sym).dropLast <+: [3] := by
+/-- … nor through the plain identifier that the re-export registers as a global alias
+(`… use a::*  mod b { pub fn p(){ secret() } }`) -/
+theorem C17_reexport_ident_rejected :
+    resolveRef ⟨lowerInfo (events f12wild), knownOf (events f12wild), [3], []⟩ (.ident 2)
+      = ([1, 2], [⟨[1], some 2⟩]) ∧
+    (convertProgram (events f12wild) .unit).2 = [⟨[1], some 2⟩] := by
   decide +kernel
 
-/-- the universal statement of clause 1 does not hold for the resolution algorithm as it stands -/
+/-- `mod a { mod x { pub use a::secret }  fn secret(){7.0} }`: the re-export stands before the private function, so
+the exported name `a$x$secret` is recorded **public** (c6822e4 alone accepts `a::x::secret`); the reference is rejected
+by the check of the member at the end of the alias chain (3b64798), which names the target's module. -/
+theorem C17_reexport_before_decl_rejected :
+    get? (lowerInfo (events f12order)).vis [1, 5, 2] = some true ∧
+    resolveRef ⟨lowerInfo (events f12order), knownOf (events f12order), [], []⟩ (.path [1, 5, 2])
+      = ([1, 2], [⟨[1], some 2⟩]) ∧
+    (convertProgram (events f12order) .unit).2 = [⟨[1], some 2⟩] := by
+  decide +kernel
+
+/-- the repaired fixtures lie inside the class of `C17_no_private_route_vis_faithful` (none of them in the class of
+the old `…_safe_reexports`, three of them outside the syntactic class), as does fixture `module_pub_use.mmm`, whose
+re-export of a public member is still accepted -/
+theorem C17_no_private_route_class_boundary :
+    visFaithful (events f12) = true ∧ visFaithful (events f12self) = true ∧ visFaithful (events f12wild) = true ∧
+    visFaithful (events f12order) = true ∧ visFaithful (events pubUseFixture) = true ∧
+    reexportsFresh (events f12) = true ∧ reexportsFresh (events f12self) = false ∧
+    reexportsFresh (events f12wild) = false ∧ reexportsFresh (events f12order) = true ∧
+    reexportsFresh (events pubUseFixture) = true ∧ noPubUse (events pubUseFixture) = false ∧
+    resolveRef ⟨lowerInfo (events pubUseFixture), knownOf (events pubUseFixture), [], []⟩ (.path [3, 2])
+      = ([1, 2], []) := by
+  decide +kernel
+
+/-! ### the unrestricted statement is still false of the code (finding F12-cycle)
+
+`mod a { mod x { pub use a::secret }  fn secret(){7.0}  pub use a::x::secret }  fn dsp(){ a::secret() }` -/
+
+/-- F12-cycle: from the top level, `a::secret` is accepted and resolves to the private `a$secret`.  The tree has no
+duplicate declaration; its second `pub use` exports the name of the private function itself (`reexportsFresh` fails),
+which overwrites the function's visibility entry with that of the first re-export (public), and the two aliases form a
+cycle, so the chain ends where it started and no target is checked. -/
+theorem C17_no_private_route_refuted_reexport_cycle :
+    resolveRef ⟨lowerInfo (events f12cycle), knownOf (events f12cycle), [], []⟩ (.path [1, 2]) = ([1, 2], []) ∧
+    ([1, 2], false) ∈ fnDecls (events f12cycle) ∧ ¬ ([1, 2] : Sym).dropLast <+: [] ∧
+    (convertProgram (events f12cycle) .unit).2 = [] ∧
+    ((fnDecls (events f12cycle)).map (·.1)).Nodup ∧ reexportsFresh (events f12cycle) = false ∧
+    visFaithful (events f12cycle) = false ∧ exportedNames (events f12cycle) = [[1, 5, 2], [1, 2]] ∧
+    get? (lowerInfo (events f12cycle)).vis [1, 2] = some true ∧
+    get? (lowerInfo (events f12cycle)).alias [1, 2] = some [1, 5, 2] ∧
+    get? (lowerInfo (events f12cycle)).alias [1, 5, 2] = some [1, 2] := by
+  decide +kernel
+
+/-- the universal statement of clause 1 still does not hold for the resolution algorithm as it stands -/
 theorem C17_no_private_route_false : ¬ ∀ evs : List Ev, NoPrivateRoute evs := by
   intro h
-  have w := C17_no_private_route_refuted_reexport
-  exact w.2.2.1 (h (events f12) (knownOf (events f12)) [] [] (.path [3, 2]) [1, 2] rfl w.1 ⟨w.2.1, by decide⟩)
-
-
-/-- **no private route**, for every tree whose re-exports are harmless — a class decidable per tree
-(`visFaithful`, `reexportsPublic` are `Bool`s): the visibility map agrees with the declarations, and no re-exported
-name leads to something marked private.  `C17_no_private_route_partial` is the syntactic special case. -/
-theorem C17_no_private_route_safe_reexports (evs : List Ev) (h1 : visFaithful evs = true)
-    (h2 : reexportsPublic evs = true) : NoPrivateRoute evs := by
-  intro known cur locals r sym hwf hres ⟨hdecl, hlen⟩
-  have hv : get? (lowerInfo evs).vis sym = some false := by
-    have := List.all_eq_true.mp h1 _ hdecl
-    simpa using this
-  cases r with
-  | ident x => exact convertVar_sound ⟨lowerInfo evs, known, cur, locals⟩ x sym hres hv hlen
-  | path segs =>
-    have hs2 : 2 ≤ segs.length := Ref.wf_path hwf
-    obtain ⟨hs, hp⟩ := convertQVar_sound ⟨lowerInfo evs, known, cur, locals⟩ segs sym hs2 hres
-    have hr2 : 2 ≤ (resolveQualifiedPath segs segs cur known).1.length := by
-      have := resolveQualifiedPath_length segs cur known; omega
-    cases hg : get? (lowerInfo evs).alias (resolveQualifiedPath segs segs cur known).1 with
-    | none =>
-      rw [aliasChain_of_none _ _ hg] at hs
-      subst hs
-      exact hp hv
-    | some t =>
-      have := List.all_eq_true.mp h2 _ (get?_mem hg)
-      simp only [Bool.or_eq_true, decide_eq_true_eq] at this
-      rcases this with h | h
-      · omega
-      · rw [← hs] at h
-        exact absurd hv h
-
-/-- the class is not empty of re-exports (fixture `module_pub_use.mmm` is in it) and excludes the three witnesses -/
-theorem C17_no_private_route_class_boundary :
-    (visFaithful (events pubUseFixture) && reexportsPublic (events pubUseFixture)) = true ∧
-    noPubUse (events pubUseFixture) = false ∧
-    reexportsPublic (events f12) = false ∧ visFaithful (events f12self) = false ∧
-    visFaithful (events f12wild) = false := by
-  decide +kernel
+  have w := C17_no_private_route_refuted_reexport_cycle
+  exact w.2.2.1 (h (events f12cycle) (knownOf (events f12cycle)) [] [] (.path [1, 2]) [1, 2] rfl w.1 ⟨w.2.1, by decide⟩)
 
 /-- the visibility written on a `mod` declaration has no effect on anything: flattening drops it
 (`ModuleDefinition { visibility: _, .. }`), so a nested module that is not `pub` can be traversed from outside
@@ -319,6 +380,44 @@ example :
     resolveRef ⟨lowerInfo evs, knownOf evs, [], []⟩ (.path [1, 2]) = ([1, 2], [⟨[1], some 2⟩]) ∧
     resolveRef ⟨lowerInfo evs, knownOf evs, [1], []⟩ (.path [1, 2]) = ([1, 2], []) ∧
     resolveRef ⟨lowerInfo evs, knownOf evs, [1], []⟩ (.ident 2) = ([1, 2], []) := by
+  decide +kernel
+
+/-- `C17_no_private_route` (and `C17_vis_faithful_of_fresh`) speak about trees **with** re-exports in which references
+through them are accepted and rejected:
+`mod a { fn s(){7.0}  pub fn t(){8.0} }  mod b { pub use a::t  pub use a::s }`: `b::t` accepted (resolves to `a$t`), `b::s`
+rejected from outside `a`, and accepted from inside `a`, where it reaches `a$s` (the route the theorem allows). -/
+example :
+    let p : List Item := [.mod false 1 [.fn false 2 [] (.lit 7), .fn true 4 [] (.lit 8)],
+      .mod false 3 [.use true [1, 4] .single, .use true [1, 2] .single]]
+    let evs := events p
+    ((fnDecls evs).map (·.1)).Nodup ∧ reexportsFresh evs = true ∧ noPubUse evs = false ∧ visFaithful evs = true ∧
+    resolveRef ⟨lowerInfo evs, knownOf evs, [], []⟩ (.path [3, 4]) = ([1, 4], []) ∧
+    resolveRef ⟨lowerInfo evs, knownOf evs, [], []⟩ (.path [3, 2]) = ([1, 2], [⟨[3], some 2⟩]) ∧
+    resolveRef ⟨lowerInfo evs, knownOf evs, [1], []⟩ (.path [3, 2]) = ([1, 2], [⟨[3], some 2⟩]) ∧
+    resolveRef ⟨lowerInfo evs, knownOf evs, [1], []⟩ (.path [1, 2]) = ([1, 2], []) := by
+  decide +kernel
+
+/-- `C17_no_private_route_consistent`: a tree outside the class of `C17_no_private_route` (the private `a$s` is declared
+twice; `pub use b::t` in `a` exports the name of the *public* function `a$t`) satisfies both hypotheses; `a::s` is
+rejected from outside. -/
+example :
+    let p : List Item := [.mod false 3 [.fn true 4 [] (.lit 9)],
+      .mod false 1 [.fn false 2 [] (.lit 7), .fn false 2 [] (.lit 6), .fn true 4 [] (.lit 8), .use true [3, 4] .single]]
+    let evs := events p
+    (∀ d ∈ fnDecls evs, d.2 = false → (d.1, true) ∉ fnDecls evs) ∧
+    (∀ d ∈ fnDecls evs, d.2 = false → d.1 ∉ exportedNames evs) ∧
+    ¬ ((fnDecls evs).map (·.1)).Nodup ∧ reexportsFresh evs = false ∧
+    resolveRef ⟨lowerInfo evs, knownOf evs, [], []⟩ (.path [1, 2]) = ([1, 2], [⟨[1], some 2⟩]) ∧
+    resolveRef ⟨lowerInfo evs, knownOf evs, [], []⟩ (.path [1, 4]) = ([3, 4], []) := by
+  decide +kernel
+
+/-- `C17_no_private_route_vismap_target`: in `f12order` the reference `a::x::secret` is accepted from inside `a`; it
+returns the private `a$secret` after the chain moved, and the conclusion is the non-trivial `[a] <+: [a]`. -/
+example :
+    resolveRef ⟨lowerInfo (events f12order), knownOf (events f12order), [1], []⟩ (.path [1, 5, 2]) = ([1, 2], []) ∧
+    get? (lowerInfo (events f12order)).vis [1, 2] = some false ∧
+    resolveRef ⟨lowerInfo (events f12order), knownOf (events f12order), [3], []⟩ (.path [1, 5, 2])
+      = ([1, 2], [⟨[1], some 2⟩]) := by
   decide +kernel
 
 /-! ## programs with `let` items
@@ -500,13 +599,14 @@ theorem C17_let_context_by_plain_name_refuted :
     (convertProgram (events letAfter) .unit).2 = [⟨[1], some 2⟩] ∧ letNamesFresh (events letAfter) = true := by
   decide +kernel
 
-/-- **no private route, for whole programs with `let` items.**  In a program without re-exports, without duplicate
+/-- **no private route, for whole programs with `let` items.**  In a program in which no `pub use` exports the name of
+a declared function (`reexportsFresh`; in particular: a program without re-exports), without duplicate
 function declarations, and in which no module-level `let` shares its plain name with another binder
 (`letNamesFresh`), take ANY item — function or `let`, at top level or in a module `pre`, at any position of the item
 order — and ANY reference occurrence inside it (under local `let`s, lambdas, local `letrec`s), with the module context
 and scopes the pass really has there (`occs`).  If the pass accepts the occurrence, the name it resolves to is not a
 private member of a module that does not enclose `pre`.  (For every `known` set and every outer scope stack.) -/
-theorem C17_no_private_route_program (P : List Ev) (hre : noPubUse P = true)
+theorem C17_no_private_route_program (P : List Ev) (hfr : reexportsFresh P = true)
     (hnd : ((fnDecls P).map (·.1)).Nodup) (hfresh : letNamesFresh P = true) (hpl : bodiesPlain P = true)
     (ev : Ev) (hev : ev ∈ P) (pre : List Name) (key : Sym) (rhs : Expr) (hs : ev.site = some (pre, key, rhs))
     (hwf : rhs.refsWf = true) (known : Sym → Bool) (ls : List (List Sym)) :
@@ -541,13 +641,13 @@ theorem C17_no_private_route_program (P : List Ev) (hre : noPubUse P = true)
       simp only [convertExpr, Prod.mk.injEq, Expr.var.injEq] at hres
       have hr : resolveRef ⟨lowerInfo P, known, o.1, o.2.1⟩ (.ident y) = (sym, []) := by
         simp only [resolveRef]; exact Prod.ext hres.1 hres.2
-      exact C17_no_private_route_partial P hre hnd known o.1 o.2.1 (.ident y) sym rfl hr hpriv
+      exact C17_no_private_route P hnd hfr known o.1 o.2.1 (.ident y) sym rfl hr hpriv
     · rw [hs'] at hres hwfo
       simp only [Expr.refsWf, decide_eq_true_eq] at hwfo
       simp only [convertExpr, Prod.mk.injEq, Expr.var.injEq] at hres
       have hr : resolveRef ⟨lowerInfo P, known, o.1, o.2.1⟩ (.path segs) = (sym, []) := by
         simp only [resolveRef]; exact Prod.ext hres.1 hres.2
-      exact C17_no_private_route_partial P hre hnd known o.1 o.2.1 (.path segs) sym
+      exact C17_no_private_route P hnd hfr known o.1 o.2.1 (.path segs) sym
         (by unfold Ref.wf; exact decide_eq_true hwfo) hr hpriv
   rcases hcur with h | h
   · rw [h] at key'; exact key'
@@ -638,11 +738,21 @@ all hypotheses; inside the module the private member is accepted, from the top-l
 example :
     let P := events [.mod false 1 [.fn false 2 [] (.lit 42), .letD false 7 (.call (.var [2]))],
       .letD false 8 (.call (.qvar [1, 2])), .fn false 0 [] (.var [8])]
-    noPubUse P = true ∧ ((fnDecls P).map (·.1)).Nodup ∧ letNamesFresh P = true ∧ bodiesPlain P = true ∧
+    reexportsFresh P = true ∧ ((fnDecls P).map (·.1)).Nodup ∧ letNamesFresh P = true ∧ bodiesPlain P = true ∧
     (∀ ev ∈ P, ev.body.refsWf = true) ∧
     siteResult (lowerInfo P) (knownOfT P .unit) [] (P.take 2) (.letS [1] false 7 (.call (.var [2])))
       = (.call (.var [1, 2]), []) ∧
     (convertProgram P .unit).2 = [⟨[1], some 2⟩] := by
+  decide +kernel
+
+/-- … and a program **with** a re-export satisfies them too: `mod a { fn secret(){42.0} }  mod b { pub use a::secret }
+let y = b::secret()  fn dsp(){ y }` — the top-level `let` is rejected. -/
+example :
+    let P := events [.mod false 1 [.fn false 2 [] (.lit 42)], .mod false 3 [.use true [1, 2] .single],
+      .letD false 8 (.call (.qvar [3, 2])), .fn false 0 [] (.var [8])]
+    reexportsFresh P = true ∧ noPubUse P = false ∧ ((fnDecls P).map (·.1)).Nodup ∧ letNamesFresh P = true ∧
+    bodiesPlain P = true ∧ (∀ ev ∈ P, ev.body.refsWf = true) ∧
+    (convertProgram P .unit).2 = [⟨[3], some 2⟩] := by
   decide +kernel
 
 /-- `C17_site_context_is_enclosing_module_*`: hypotheses hold and contexts are non-trivial in `letAfter` -/
